@@ -252,6 +252,8 @@ def run(ctx):
                      gen_cfg.model_and_spec(collide=True, force=['prefix_ns', 'deep_ns']),
                      gen_cfg.model_and_spec(collide=True, force=['prefix_ns', 'many_ports']),
                      gen_cfg.model_and_spec(collide=True, force=['partial_spelling', 'deep_ns']),
+                     gen_cfg.model_and_spec(force=['repeat_ns']),
+                     gen_cfg.model_and_spec(collide=True, force=['repeat_ns', 'many_ports']),
                      gen_cfg.model_and_spec(collide=True, want_mc=True,
                                             force=['partial_spelling']),
                      gen_cfg.model_and_spec(collide=True, force=['many_ports', 'nested_enum',
